@@ -72,6 +72,16 @@ func TestC06Grid(t *testing.T) {
 
 func TestC09Rapid(t *testing.T) { C09NA.RunRapid(t) }
 
+func TestC09Enum(t *testing.T) {
+	allCuts := envInt("VERIF_DEPTH", 0) > 0
+	what := "one-shot and one cut in the middle of the block"
+	if allCuts {
+		what = "every single cut of the block"
+	}
+	C09NA.RunShards(t, "every small name-addr spec (4 display forms x 3 blank kinds, bracketed or bare URI, 0..2 of 7 parameters with every blank placement) x From/To/Contact/PAI x {value parser, ParseHeaders} x blanks around the value x CRLF/LF x contact capacity; two-value headers with blanks around the comma; Contact: *; "+what,
+		true, 32, func(s int, emit func(CaseNA) bool) { enumNA(allCuts, s, 32, emit) })
+}
+
 func TestC10Rapid(t *testing.T) { C10Num.RunRapid(t) }
 func TestC10Enum(t *testing.T) {
 	n := envInt("VERIF_C10_DIGITS", 6)
